@@ -29,17 +29,25 @@ TRACE_CFG = """SPECIFICATION Spec
 
 
 # ---------------------------------------------------------------------------------------------- instances
-def gen_panel(rng, n, n_dates):
+def gen_panel(rng, n, n_dates, mirror=False):
   base = np.cumsum(rng.normal(size=n_dates)) * rng.uniform(1.0, 4.0) + 60
   season = 8 * np.sin(np.arange(n_dates) * rng.uniform(0.3, 1.2))
   cells = {}
   scales = sorted((rng.uniform(0.6, 1.6) * (1.9 ** i) for i in range(n)), reverse=True)
   rng.shuffle(scales)
   for g in range(1, n + 1):
-    kind = rng.choice(['follow', 'follow', 'follow', 'noisy', 'lagged'])
+    kind = rng.choice(['follow', 'follow', 'follow', 'noisy', 'lagged'] + (['mirror'] * 2 if mirror else []))
     sc = scales[g - 1]
+    if mirror and g <= 2:
+      # geos 1 and 2: equally large, moving with / against the common signal
+      kind = 'follow' if g == 1 else 'mirror'
+      sc = max(scales) * 1.05
     if kind == 'follow':
       s = sc * (base + season) + rng.normal(size=n_dates) * sc * rng.uniform(0.3, 2.5)
+    elif kind == 'mirror':
+      # moves against the common signal: together with a 'follow' geo the disturbances cancel, so a group can be
+      # much cheaper than each of its members (required budgets are not monotone in the group)
+      s = sc * (120 - base - season) + rng.normal(size=n_dates) * sc * 0.4
     elif kind == 'lagged':
       s = sc * (np.roll(base, 1) + season) + rng.normal(size=n_dates) * sc
     else:
@@ -62,7 +70,7 @@ def gen_instance(rng, iid, family='random', nmax_geos=6):
   npm = rng.choice([90, n_dates, max(n_test + 3, n_dates - rng.randint(1, 5)), n_test + 3 + rng.randint(0, 4)])
   npm = max(npm, n_test + 3)
   nprng = np.random.RandomState(rng.randint(0, 2 ** 31 - 1))
-  cells = gen_panel(nprng, n, n_dates)
+  cells = gen_panel(nprng, n, n_dates, mirror=(family == 'cancel'))
   if rng.random() < 0.3:
     elig = ['ctx'] * n
     default_elig = rng.random() < 0.7
@@ -72,6 +80,14 @@ def gen_instance(rng, iid, family='random', nmax_geos=6):
   if family == 'constraints' and n >= 3 and rng.random() < 0.25:
     # many geos that must be in one of the two groups: forced control groups larger than admissible sizes
     elig = [rng.choice(['ct', 'ct', 'ctx', 'ctx', 'c', 'cx']) for _ in range(n)]
+    default_elig = False
+  if family == 'cancel':
+    # must-include treatment-side geos + a minimum treatment size of two + a budget cap between the pair and the singles
+    elig = [rng.choice(['ct', 'ct', 't', 'ctx', 'ctx', 'cx']) for _ in range(n)]
+    if n >= 3 and rng.random() < 0.6:
+      elig[0] = 't'
+      elig[1] = rng.choice(['t', 'ct'])
+      elig[2] = rng.choice(['cx', 'ctx', 'c'])
     default_elig = False
   if family == 'degenerate':
     mode = rng.choice(['no_c', 'no_t', 'all_x', 'all_fixed', 'one_side'])
@@ -114,12 +130,19 @@ def gen_instance(rng, iid, family='random', nmax_geos=6):
     share = (lo, 100, hi, 100)
   nmax = rng.randint(max(2, n - 2), max(2, n)) if pr(0.15) else 0
   want_budget = pr(0.3)
+  if family == 'cancel':
+    tr = (2, max(2, min(3, n)))
+    want_budget = True
+    share = (0, 0, 0, 0)
+    nmax = 0
   inst = {'id': iid, 'family': family, 'n': n, 'n_dates': n_dates, 'cells': cells, 'elig': elig,
           'default_elig': default_elig, 'par': p, 'tr': tr, 'cr': cr, 'gtol': gtol, 'vtol': vtol, 'share': share,
           'nmax': nmax, 'want_budget': want_budget, 'budget': None,
           'budget_mode': rng.choices(['low_half', 'middle', 'high', 'below_all', 'above_all', 'wide'],
                                      weights=[0.4, 0.15, 0.1, 0.05, 0.05, 0.25])[0],
-          'ids_kind': rng.choice(['int', 'str', 'str2']), 'extra_elig_row': rng.random() < 0.15,
+          'ids_kind': rng.choice(['int', 'str', 'str2']),
+          'extra_elig_row': rng.choices([False, 'optional', 'ct', 'c', 't'], weights=[0.8, 0.12, 0.04, 0.02, 0.02])[0],
+          'float_ints': rng.random() < 0.15,
           'shuffle_seed': rng.randint(0, 10 ** 9)}
   return inst
 
@@ -143,8 +166,26 @@ def attach_oracle(inst):
     budgets = sorted(d['ri'] / inst['par']['iroas'] for d in t0['diags'].values())
     q = lambda f: budgets[min(len(budgets) - 1, int(f * len(budgets)))]
     mode = inst['budget_mode']
+    if inst['family'].startswith('cancel'):
+      mode = 'cancel'
     rnd = lambda v: float('%.6g' % v)
-    if mode == 'low_half':
+    if mode == 'cancel':
+      # cap between the cheapest pair and the singles it is made of (optimistic budgets at rho_max)
+      iro = inst['par']['iroas']
+      single = {g: t0['geo_impact'][g - 1] / iro for g in geos}
+      term = t0['term']
+      pairs = []
+      for m, gs in oracle.subsets(inst['n']):
+        if len(gs) == 2:
+          ob = term * oracle.std2(t0['series'][m]) * math.sqrt(1 - inst['par']['rho_max'] ** 2) / iro
+          if ob < 0.8 * min(single[gs[0]], single[gs[1]]):
+            pairs.append((ob, min(single[gs[0]], single[gs[1]])))
+      if pairs:
+        ob, sg = min(pairs)
+        b = (0.0, rnd(0.9 * sg))
+      else:
+        b = (0.0, rnd(q(0.5)))
+    elif mode == 'low_half':
       b = (0.0, rnd(q(0.5)))
     elif mode == 'middle':
       b = (rnd(q(0.25)), rnd(q(0.75)))
@@ -202,7 +243,11 @@ def build_objects(inst, variant=None):
       c, t, x = TRIPLE[cl]
       erows.append({'geo': ids[g - 1], 'control': c, 'treatment': t, 'exclude': x})
     if inst['extra_elig_row']:
-      erows.append({'geo': 'not_in_data' if isinstance(ids[0], str) else 9999, 'control': 1, 'treatment': 0, 'exclude': 1})
+      # a row for a geo that is not in the data: optional rows are dropped by the data object; a row that forbids
+      # exclusion must make the data object reject the table (then there is no search to judge)
+      trip = {'optional': (1, 0, 1), True: (1, 0, 1), 'ct': (1, 1, 0), 'c': (1, 0, 0), 't': (0, 1, 0)}[inst['extra_elig_row']]
+      erows.append({'geo': 'not_in_data' if isinstance(ids[0], str) else 9999, 'control': trip[0], 'treatment': trip[1],
+                    'exclude': trip[2]})
     r.shuffle(erows)
     if not erows:
       erows = [{'geo': 'not_in_data' if isinstance(ids[0], str) else 9999, 'control': 1, 'treatment': 1, 'exclude': 1}]
@@ -225,6 +270,14 @@ def build_objects(inst, variant=None):
     kw['budget_range'] = (inst['budget'][0] * scale, inst['budget'][1] * scale)
   if inst['nmax']:
     kw['n_geos_max'] = inst['nmax']
+  if inst.get('float_ints'):
+    # integer-valued floats are in the documented / accepted domain of the integer parameters
+    for key in ('n_test', 'n_pretest_max', 'n_designs', 'n_geos_max'):
+      if key in kw:
+        kw[key] = float(kw[key])
+    for key in ('treatment_geos_range', 'control_geos_range'):
+      if key in kw:
+        kw[key] = (float(kw[key][0]), float(kw[key][1]))
   par = tbrmmdesignparameters.TBRMMDesignParameters(**kw)
   data = tbrmmdata.TBRMMData(df, 'response', elig_obj)
   return data, par, ids
@@ -490,6 +543,7 @@ def to_tla(inst):
   return {'id': inst['id'], 'n': n, 'elig': inst['elig'], 'w': tab['weights'], 'tr': list(inst['tr']),
           'cr': list(inst['cr']), 'gtol': list(inst['gtol']), 'vtol': list(inst['vtol']), 'share': list(inst['share']),
           'hasBudget': inst['budget'] is not None, 'k': inst['par']['n_designs'], 'nmax': inst['nmax'],
+          'missingRequired': (not inst['default_elig']) and inst.get('extra_elig_row') in ('ct', 'c', 't'),
           'overBudget': tab['over_budget'], 'impactOrder': tab['impact_order'], 'rank': rank, 'budgetOK': bok,
           'opt': opt, 'beatsZero': beats, 'exh': res(inst['exh']), 'greedy': res(inst['greedy'])}
 
@@ -532,7 +586,7 @@ def judge(res, insts, label, nchunks=8):
 FAMILIES = {
     'C01': [('random', 0.55), ('constraints', 0.25), ('degenerate', 0.1), ('tiny', 0.1)],
     'C02': [('constraints', 0.6), ('random', 0.3), ('tiny', 0.1)],
-    'C03': [('random', 0.5), ('constraints', 0.5)],
+    'C03': [('random', 0.45), ('constraints', 0.45), ('cancel', 0.1)],
     'C04': [('random', 0.6), ('constraints', 0.4)],
     'C09': [('degenerate', 0.45), ('tiny', 0.25), ('constraints', 0.3)],
     'C13': [('random', 0.6), ('constraints', 0.4)],
@@ -626,6 +680,7 @@ def public(inst):
           'gtol': inst['gtol'], 'vtol': inst['vtol'], 'share': inst['share'], 'nmax': inst['nmax'],
           'budget': inst['budget'], 'want_budget': False, 'budget_mode': inst['budget_mode'],
           'ids_kind': inst['ids_kind'], 'extra_elig_row': inst['extra_elig_row'], 'shuffle_seed': inst['shuffle_seed'],
+          'float_ints': bool(inst.get('float_ints')),
           'perturb_after': bool(inst.get('perturb_after')), 'decoy': bool(inst.get('decoy')), 'shared_mode': inst.get('shared_mode'),
           'is_partner': bool(inst.get('is_partner')),
           'partner': public(inst['partner']) if inst.get('partner') is not None else None}
